@@ -159,7 +159,7 @@ def run(tier):
                 else:
                     rng.qgrid = {"uniform": [u]}
                 try:
-                    signal.alarm(8)
+                    signal.alarm(90)
                     x = float(d.draw_mw(rng))
                     signal.alarm(0)
                 except Timeout:
@@ -167,7 +167,7 @@ def run(tier):
                         # the quantile lies beyond the total mass of the (unnormalised) mass function
                         v.violation(SZ_KEY, f"{t}: draw_mw at quantile {u} does not return: the mass function only sums to {total}", {"text": t, "u": u})
                     else:
-                        v.violation(f"C11:draw-does-not-return:{fam}:{reg}", f"{t}: draw_mw at quantile {u} did not return within 8 s", {"text": t, "u": u})
+                        v.violation(f"C11:draw-does-not-return:{fam}:{reg}", f"{t}: draw_mw at quantile {u} did not return within 90 s", {"text": t, "u": u})
                     continue
                 except Exception as exc:
                     signal.alarm(0)
